@@ -79,6 +79,9 @@ PROPS = {
             "BPT.Props.C01.step_refines",
             "BPT.Props.C01.run_refines",
             "BPT.Props.C01.refines_btreemap",
+            "BPT.Props.C01.lookup_erase_self",
+            "BPT.Props.C01.length_insert",
+            "BPT.Props.C01.length_erase",
             "BPT.Props.C01.reachable_inv",
             "BPT.Props.C01.clear_is_new", "BPT.Props.C01.history_after_clear",
             "BPT.Props.C01.abs_sorted",
